@@ -355,6 +355,12 @@ func guardedByThisBool(x ssa.Instruction, c *ssa.Call, want bool) bool {
 // lockedBefore: a Lock on the mutex field class dominates x and an Unlock of it is deferred before x.
 func lockedBefore(x ssa.Instruction, class string) bool {
 	fn := x.Parent()
+	// must-lockset: the lock is held on every path reaching x (released by a deferred or by an explicit Unlock later)
+	for _, h := range core.AnalyzeLocks(fn).HeldBefore(x) {
+		if h.Class == class && h.Mode == "W" {
+			return true
+		}
+	}
 	locked, deferred := false, false
 	for _, c := range core.Calls(fn) {
 		if core.FieldOf(core.CallRecv(c)) != class {
